@@ -190,7 +190,7 @@ def decide(pid, tier, seed, reports, known, wall, write_replay, verbose=False):
         undecided=undecided[:100],
         bounded=bounded_rows,
         evaluations=max(evaluations, 0), distinct_nontrivial=distinct,
-        rule='; '.join(rules) if rules else 'deductive obligations only; bounded stand-ins listed under "bounded"',
+        rule='; '.join(dict.fromkeys(rules)) if rules else 'deductive obligations only; bounded stand-ins listed under "bounded"',
         samples=(samples[:8] or [r for r in ob_rows[:3]]),
         explanation=('every obligation generated from the current source was discharged; bounded stand-ins (listed under "bounded") passed and are not counted as proof' if all_proved else
                      ('no deductive obligation is attached to this property: decided by bounded run-time contract stand-ins only (bounded, not proof)' if ob_total == 0 else
